@@ -23,7 +23,7 @@ SInit(rec) == LET s == S0(Decls[rec.decl], Scn(rec), FTab) IN
 \* a fresh parser: nothing preset
 Fresh(rec) == LET s == S0(Decls[rec.decl], Scn(rec), FTab) IN [s EXCEPT !.val = [o \in 1..Len(s.opts) |-> IF o <= Len(s.d.opts) THEN ZeroVal(s.opts[o]) ELSE <<>>],
                                                !.pos = [c \in 1..Len(s.d.cmds) |-> [i \in 1..Len(s.d.cmds[c].args) |->
-                                                            IF s.d.cmds[c].args[i].slice THEN <<>> ELSE <<ZeroText(s.d.cmds[c].args[i].vtype)>>]]]
+                                                            IF s.d.cmds[c].args[i].slice \/ s.d.cmds[c].args[i].map THEN <<>> ELSE <<ZeroText(s.d.cmds[c].args[i].vtype)>>]]]
 
 UserN(s) == Len(s.d.opts)
 ValEq(kind, sv, ov) == IF kind = "map" THEN SeqToSet(sv) = SeqToSet(ov) /\ Len(sv) = Len(ov) ELSE sv = ov
